@@ -50,14 +50,20 @@ def _engine_targets(ded, results, tier):
             rec["reason"] = f"engine error {type(e).__name__}: {e}"
             rec["trace"] = traceback.format_exc()[-1500:]
         out.append(rec)
-    opts = {"z3_ms": 30000 if tier == "quick" else 60000, "cvc5_s": 60 if tier == "quick" else 120, "retry": False}
+    opts = {"z3_ms": 30000 if tier == "quick" else 60000, "cvc5_s": 30 if tier == "quick" else 90}
+    opts.update(ded.get("opts", {}))
+    retry_unknown = ded.get("retry_unknown", True)
     res = discharge([o for _, o in all_obls], opts=opts) if all_obls else []
-    # retry unknowns alone (idle pool, doubled budget) before they count as failed
-    for k, ((rec, o), r) in enumerate(zip(all_obls, res)):
-        if r["result"] in ("unknown", "error"):
-            from .solve import discharge_one
-            r2 = discharge_one((o.name, o.to_smt2(), {"z3_ms": 3 * opts["z3_ms"], "cvc5_s": 2 * opts["cvc5_s"], "retry": False}))
-            r2["ms"] += r["ms"]
+    # retry unknowns on a quiet pool before they count as failed
+    idx = [k for k, r in enumerate(res) if r["result"] in ("unknown", "error") and retry_unknown]
+    if idx:
+        from .solve import discharge_one
+        import multiprocessing as mp
+        jobs = [(all_obls[k][1].name, all_obls[k][1].to_smt2(), {"z3_ms": 2 * opts["z3_ms"], "z3_first_ms": opts["z3_ms"], "cvc5_s": opts["cvc5_s"]}) for k in idx]
+        with mp.get_context("fork").Pool(min(8, len(jobs))) as pool:
+            again = pool.map(discharge_one, jobs, chunksize=1)
+        for k, r2 in zip(idx, again):
+            r2["ms"] += res[k]["ms"]
             res[k] = r2
     for (rec, o), r in zip(all_obls, res):
         rec["obligations"].append({"name": o.name, "kind": o.kind, "result": r["result"], "backend": r["backend"], "ms": r["ms"],
@@ -85,7 +91,17 @@ def run_property(pid, prop, tier, seed, known, t0):
     os.makedirs(os.path.join(ROOT, "evidence"), exist_ok=True)
     ded_results = []
     for ded in getattr(prop, "DEDUCTIVE", []):
-        ded_results += _engine_targets(ded, ded_results, tier)
+        recs = _engine_targets(ded, ded_results, tier)
+        for r in recs:
+            r["suppressed_if_proved"] = ded.get("suppressed_if_proved")
+        ded_results += recs
+    # a contract that pins today's (defective) behaviour is dropped once the contract stating the property itself is proved
+    proved = {r["target"] for r in ded_results if r["status"] == "proved"}
+    for r in ded_results:
+        if r.get("suppressed_if_proved") in proved and r["status"] != "proved":
+            r["status"] = "superseded"
+            r["reason"] = f"superseded: {r['suppressed_if_proved']} is proved"
+            r["obligations"] = []
     # extra finite / lemma-level deductive checks implemented by the property module itself
     extra = []
     if hasattr(prop, "deductive_extra"):
